@@ -26,6 +26,7 @@ type solverProc struct {
 	dump    io.Writer // optional transcript
 	depth   int
 	timeout int // ms
+	dead    bool // killed after a hard time-out; replaced before the next path
 }
 
 var solverEpoch = 0
@@ -71,6 +72,9 @@ func (s *solverProc) close() {
 }
 
 func (s *solverProc) send(x string) {
+	if s.dead {
+		return
+	}
 	s.in.WriteString(x)
 	s.in.WriteByte('\n')
 	if s.dump != nil {
@@ -99,15 +103,33 @@ func (s *solverProc) readLine() string {
 func (s *solverProc) check() string {
 	t0 := time.Now()
 	s.Queries++
+	if s.dead {
+		panic(pathTruncated{"solver process was killed after a hard time-out"})
+	}
 	s.send("(check-sat)")
 	s.in.Flush()
 	var l string
-	for {
-		l = s.readLine()
-		if l == "" {
-			continue
+	// z3's own :timeout is not always honoured (e.g. inside floating-point
+	// preprocessing): a hard limit kills the process; the path is truncated
+	ans := make(chan string, 1)
+	go func() {
+		defer func() { recover() }()
+		for {
+			x := s.readLine()
+			if x == "" {
+				continue
+			}
+			ans <- x
+			return
 		}
-		break
+	}()
+	hard := time.Duration(s.timeout)*4*time.Millisecond + 20*time.Second
+	select {
+	case l = <-ans:
+	case <-time.After(hard):
+		s.dead = true
+		s.cmd.Process.Kill()
+		panic(pathTruncated{fmt.Sprintf("solver did not answer within the hard limit of %v", hard)})
 	}
 	s.Spent += time.Since(t0)
 	switch l {
